@@ -1164,7 +1164,20 @@ func appendUID(str string, dst []byte) []byte {
 	return dst
 }
 
+// normalizeIntElement prepares an integer array element for strconv: digit
+// separators are removed and, for arrays without an explicit base (base 0),
+// the base is taken from the element's own prefix (none means decimal, even
+// with leading zeros).
+func normalizeIntElement(str string, base int) (string, int) {
+	if base == 0 {
+		_, str, base = splitIntLiteral(str)
+		return str, base
+	}
+	return strings.ReplaceAll(str, "_", ""), base
+}
+
 func parseUintElement(str string, base int, bitSize int, result []byte) []byte {
+	str, base = normalizeIntElement(str, base)
 	element, err := strconv.ParseUint(str, base, bitSize)
 	if err != nil {
 		panic(fmt.Errorf("error parsing uint element: %v", err))
@@ -1184,6 +1197,7 @@ func parseUintElement(str string, base int, bitSize int, result []byte) []byte {
 }
 
 func parseIntElement(str string, base int, bitSize int, result []byte) []byte {
+	str, base = normalizeIntElement(str, base)
 	element, err := strconv.ParseInt(str, base, bitSize)
 	if err != nil {
 		panic(fmt.Errorf("error parsing int element: %v", err))
